@@ -30,17 +30,18 @@ theorem at_vertex_rule_eq (c : Curve α (V2 α)) (i : Nat) (h : 0 < c.count) :
   · have h2 : ¬ i = c.verts.length - 1 := by omega
     rw [if_neg (by simpa using hi), if_neg h2]
 
-/-- `at_length` of the model IS: range guard, exact vertex hit, else the regenerated edge branch -/
+/-- `at_length` of the model IS: the regenerated range guard (no station outside [0, L]), the exact
+    vertex hit, else the regenerated edge branch -/
 theorem at_length2_eq (c : Curve α (V2 α)) (l : α) :
     c.atLength l =
-      if l < 0 || c.length < l then none else
+      if GenRs.at_length_guard2 c l then none else
       let k := countLt c.lengths l
       if k < c.lengths.length && !decide (l < c.len k) then some (c.atVertex k)
       else GenRs.at_length_edge2 c l k := rfl
 
 theorem at_length3_eq (c : Curve α (V3 α)) (l : α) :
     c.atLength l =
-      if l < 0 || c.length < l then none else
+      if GenRs.at_length_guard3 c l then none else
       let k := countLt c.lengths l
       if k < c.lengths.length && !decide (l < c.len k) then some (c.atVertex k)
       else GenRs.at_length_edge3 c l k := rfl
